@@ -81,6 +81,20 @@ fn run_total(cfg: &Cfg, ops: &[Op], sigs: Option<&mut BTreeSet<String>>) -> Resu
         let b = s.ser();
         phase = "clone.next";
         drop(c);
+        if let Ok(bytes) = &b {
+            phase = "deserialize";
+            if let Ok(mut r) = s.de(bytes) {
+                phase = "next on the restored copy";
+                if let Some(op) = ops.iter().rev().find(|o| !matches!(o, Op::Reset)) {
+                    r.apply(op);
+                }
+                phase = "reset on the restored copy";
+                r.reset();
+                if let Some(op) = ops.iter().find(|o| !matches!(o, Op::Reset)) {
+                    r.apply(op);
+                }
+            }
+        }
         b.is_ok()
     }));
     if let (Some(set), Some(sg)) = (sigs, sig) {
